@@ -513,6 +513,9 @@ func buildServer(c *cfgT, reg *registry, extra ...wire.OptionFn) (*wire.Server, 
 						err = cr.Read()
 						if err == nil {
 							r.add("op", sx("data", cr.Msg))
+							// the handler keeps the chunk (batching rows until CopyDone): later chunks do not change it
+							r.keepB("COPY payload", cr.Msg)
+							r.checkKept("at a later CopyReader.Read")
 							continue
 						}
 						if err == io.EOF {
